@@ -159,6 +159,10 @@ pub fn judge(h_calls: &[Call], docs: &[(Val, Fmt)], to: Fmt, acc: &mut Acc) {
             acc.known("C02-yaml-documentless-stream", || format!("call {} input [{}]", bad, preview(&h_calls[bad].input, 40)));
             return;
         }
+        if matches!(verdicts[bad], Verdict::Err(_)) && known::read_ahead_failure("C03", h_calls[bad].from.is_none(), !matches!(h_calls[bad].mode, Mode::Slice), &h_calls[bad].input) {
+            acc.known("C09-yaml-trial-depends-on-read-ahead", || format!("call {} ({}) input [{}]: {}", bad, h_calls[bad].mode.describe(), preview(&h_calls[bad].input, 50), verdicts[bad].show()));
+            return;
+        }
         acc.violation(Violation { sig: format!("to={} call failed: {}", to.name(), ev::truncate(&crate::c02_mask(verdicts[bad].text()), 80)), case: case(), observed: format!("call {} of {}: {}", bad, h_calls.len(), verdicts[bad].show()), expected: "every call succeeds".into() });
         return;
     }
